@@ -20,16 +20,14 @@ Definition rec_valid (c : cfg) (r : rec) (q : request) (t : Z) : bool :=
 Definition is_ref (r : rec) : bool := match r_ref r with Some _ => true | None => false end.
 
 (* the valid branch after its rotate / refuse / nothing step returned Ok *)
-Definition start_finish (s : st) (q : request) (o : nat) (isref : bool) (cks : list cookie)
+Definition start_finish (s : st) (q : request) (k : key) (o : nat) (isref : bool) (cks : list cookie)
   : st * result (option nat) * list cookie :=
-  let '(s, fr) := if isref then follow (S (N.to_nat (supply s))) s o else (s, Ok o) in
+  let '(s, fr) := if isref then follow (S (N.to_nat (supply s))) s o k else (s, Ok (o, k)) in
   match fr with
   | Err e => (s, Err e, cks)
   | Panic e => (s, Panic e, cks)
-  | Ok o' =>
-    let cks := if isref then
-                 match hget s o' with Some ob' => cks ++ [CkLive (o_id ob')] | None => cks end
-               else cks in
+  | Ok (o', lk) =>
+    let cks := if isref then cks ++ [CkLive lk] else cks in
     let s := hupd s o' (fun r => set_ua (set_ip (set_access r (now s)) (q_addr q)) (q_ua q)) in
     (s, Ok (Some o'), cks)
   end.
@@ -50,13 +48,13 @@ Definition start_found (c : cfg) (s : st) (q : request) (k : key) (o : nat)
     else if negb (is_ref r) && (c_idexpiry c <=? since (r_created r) (now s))%Z then
       let '(s, res, rck) := regenerate s o in
       match res with
-      | Ok _ => start_finish s q o (is_ref r) rck
+      | Ok _ => start_finish s q k o (is_ref r) rck
       | Err e => (s, Err e, rck)
       | Panic e => (s, Panic e, rck)
       end
     else if (sat_add (c_idexpiry c) (c_grace c) <=? since (r_created r) (now s))%Z then
       let '(s, ok) := cache_delete s k in (s, Err (if ok then EExpiredID else EDeleteExpired), [])
-    else start_finish s q o (is_ref r) []
+    else start_finish s q k o (is_ref r) []
   end.
 
 Lemma start_unfold s q :
@@ -87,7 +85,7 @@ Proof.
       destruct (sat_add (c_idexpiry (conf s)) (c_grace (conf s)) <=? since (r_created (o_rec ob)) (now s1))%Z;
       try (destruct (cache_delete s1 k) as [s2 []]; reflexivity);
       try (destruct (regenerate s1 o) as [[s2 [[]|e|e]] rck]; reflexivity);
-      try (destruct (follow (S (N.to_nat (supply s1))) s1 o) as [s2 [o'|e|e]]; reflexivity);
+      try (destruct (follow (S (N.to_nat (supply s1))) s1 o k) as [s2 [[o' lk']|e|e]]; reflexivity);
       reflexivity.
   - reflexivity.
 Qed.
@@ -316,45 +314,45 @@ Qed.
 
 (* ------------------------------------------------- following the references *)
 
-Lemma follow_load : forall fuel s o s' res,
-  cv s -> NoDup (map fst (cache s)) -> follow fuel s o = (s', res) ->
+Lemma follow_load : forall fuel s o lk s' res,
+  cv s -> NoDup (map fst (cache s)) -> follow fuel s o lk = (s', res) ->
   exists l, ext s s' l /\ Forall calm l /\ (forall k, Lc s' k = Lc s k) /\
     cv s' /\ NoDup (map fst (cache s')) /\ heap_ext s s' /\ pending s' = pending s /\
     ((exists e, In e l /\ is_failed_load e = true) -> res = Err EGetRef) /\
-    (forall o', res = Ok o' -> exists ob', hget s' o' = Some ob' /\ r_ref (o_rec ob') = None) /\
+    (forall o' lk', res = Ok (o', lk') -> exists ob', hget s' o' = Some ob' /\ r_ref (o_rec ob') = None) /\
     (hget s o <> None -> forall e, res <> Panic e).
 Proof.
-  assert (Base : forall s o s' res, cv s -> NoDup (map fst (cache s)) ->
-            (s' = s /\ ((exists ob, hget s o = Some ob /\ r_ref (o_rec ob) = None /\ res = Ok o) \/
+  assert (Base : forall s o (lk : key) s' (res : result (nat * key)), cv s -> NoDup (map fst (cache s)) ->
+            (s' = s /\ ((exists ob, hget s o = Some ob /\ r_ref (o_rec ob) = None /\ res = Ok (o, lk)) \/
                         (hget s o = None /\ res = Panic EGetRef) \/
                         (hget s o <> None /\ res = Err ERefLoop))) ->
             exists l, ext s s' l /\ Forall calm l /\ (forall k, Lc s' k = Lc s k) /\
               cv s' /\ NoDup (map fst (cache s')) /\ heap_ext s s' /\ pending s' = pending s /\
               ((exists e, In e l /\ is_failed_load e = true) -> res = Err EGetRef) /\
-              (forall o', res = Ok o' -> exists ob', hget s' o' = Some ob' /\ r_ref (o_rec ob') = None) /\
+              (forall o' lk', res = Ok (o', lk') -> exists ob', hget s' o' = Some ob' /\ r_ref (o_rec ob') = None) /\
               (hget s o <> None -> forall e, res <> Panic e)).
-  { intros s o s' res Hcv Hn [-> H]. exists []. split; [apply ext_refl|]. split; [constructor|].
+  { intros s o lk s' res Hcv Hn [-> H]. exists []. split; [apply ext_refl|]. split; [constructor|].
     split; [reflexivity|]. split; [exact Hcv|]. split; [exact Hn|]. split; [apply heap_ext_refl|].
     split; [reflexivity|]. split; [intros (e & [] & _)|]. split.
-    - intros o' ->. destruct H as [(ob & Ho & Hr & E)|[(_ & E)|(_ & E)]]; try discriminate.
-      injection E as <-. exists ob. auto.
+    - intros o' lk' ->. destruct H as [(ob & Ho & Hr & E)|[(_ & E)|(_ & E)]]; try discriminate.
+      injection E as <- <-. exists ob. auto.
     - intros Hne e ->. destruct H as [(ob & _ & _ & E)|[(Hn' & _)|(_ & E)]]; try discriminate. contradiction. }
   assert (Hcase : forall s o, hget s o = None \/ exists ob, hget s o = Some ob).
   { intros s o. destruct (hget s o) as [ob|]; [right; exists ob; reflexivity | left; reflexivity]. }
-  induction fuel as [|f IH]; intros s o s' res Hcv Hn HF; simpl in HF.
-  - apply Base; auto. destruct (Hcase s o) as [Ho|[ob Ho]]; rewrite Ho in HF.
+  induction fuel as [|f IH]; intros s o lk s' res Hcv Hn HF; simpl in HF.
+  - apply (Base s o lk); auto. destruct (Hcase s o) as [Ho|[ob Ho]]; rewrite Ho in HF.
     + injection HF as <- <-. split; auto.
     + destruct (r_ref (o_rec ob)) eqn:Er; injection HF as <- <-; split; auto.
       * right. right. split; [congruence | reflexivity].
       * left. exists ob. auto.
   - destruct (Hcase s o) as [Ho|[ob Ho]]; rewrite Ho in HF.
-    { apply Base; auto. injection HF as <- <-. split; auto. }
+    { apply (Base s o lk); auto. injection HF as <- <-. split; auto. }
     destruct (r_ref (o_rec ob)) as [t|] eqn:Er.
-    2:{ apply Base; auto. injection HF as <- <-. split; auto. left. exists ob. auto. }
+    2:{ apply (Base s o lk); auto. injection HF as <- <-. split; auto. left. exists ob. auto. }
     destruct (cache_get s t) as [s1 g] eqn:EG.
     destruct (cache_get_load _ _ _ _ Hcv Hn EG) as (l1 & X1 & C1 & HL1 & Hcv1 & Hn1 & HE1 & Hp1 & Hok1 & Hfail1 & Hobj1).
     destruct g as [[o1|]|].
-    + destruct (IH _ _ _ _ Hcv1 Hn1 HF) as (l2 & X2 & C2 & HL2 & Hcv2 & Hn2 & HE2 & Hp2 & Hf2 & Hok2 & Hnp2).
+    + destruct (IH _ _ _ _ _ Hcv1 Hn1 HF) as (l2 & X2 & C2 & HL2 & Hcv2 & Hn2 & HE2 & Hp2 & Hf2 & Hok2 & Hnp2).
       exists (l1 ++ l2). split; [eapply ext_trans; eassumption|]. split; [apply Forall_app; split; assumption|].
       split; [intro k; rewrite HL2; apply HL1|]. split; [exact Hcv2|]. split; [exact Hn2|].
       split; [eapply heap_ext_trans; eassumption|]. split; [congruence|]. split; [|split].
@@ -391,14 +389,14 @@ Definition load_failure_outcome (s s' : st) (l : list ev) (res : result (option 
   (exists e, In e l /\ is_failed_load e = true) ->
   res = Err EGetRef /\ cks = cks0 /\ Forall calm l /\ forall k, Lc s' k = Lc s k.
 
-Lemma start_finish_load s q o isref cks0 s' res cks :
-  cv s -> NoDup (map fst (cache s)) -> start_finish s q o isref cks0 = (s', res, cks) ->
+Lemma start_finish_load s q k o isref cks0 s' res cks :
+  cv s -> NoDup (map fst (cache s)) -> start_finish s q k o isref cks0 = (s', res, cks) ->
   exists l, ext s s' l /\ load_failure_outcome s s' l res cks cks0.
 Proof.
   intros Hcv Hn HS. unfold start_finish in HS. destruct isref.
-  - destruct (follow (S (N.to_nat (supply s))) s o) as [s2 fr] eqn:EF.
-    destruct (follow_load _ _ _ _ _ Hcv Hn EF) as (l & X & C & HL & _ & _ & _ & _ & Hf & _).
-    destruct fr as [o'|e|e].
+  - destruct (follow (S (N.to_nat (supply s))) s o k) as [s2 fr] eqn:EF.
+    destruct (follow_load _ _ _ _ _ _ Hcv Hn EF) as (l & X & C & HL & _ & _ & _ & _ & Hf & _).
+    destruct fr as [[o' lk']|e|e].
     + injection HS as <- <- <-. exists l. split; [eapply ext_nil_r; [exact X | apply ext_hupd]|].
       intro H. apply Hf in H. discriminate.
     + injection HS as <- <- <-. exists l. split; [exact X|]. intro H. pose proof (Hf H) as E. injection E as ->. auto.
